@@ -304,7 +304,7 @@ def main():
 
     # 3/4. generate, execute, replay, judge
     trace = os.path.join(WORK, f"{pid}.{tier}.trace")
-    gen_trace(pid, seed, tier, trace)
+    gen_ok = gen_trace(pid, seed, tier, trace)
     impl_lines = open(trace, errors="replace").read().splitlines()
     compared, mism, cstats = 0, [], {}
     orc = {"ok": 0, "cases": 0, "fails": [], "known": [], "needfull": [], "detail": {}}
@@ -364,6 +364,10 @@ def main():
         broken += problems
     if mism:
         broken.append(f"correspondence: {len(mism)} compared lines differ (first: line {mism[0][1]})")
+    if not gen_ok:
+        # the generator drives the real crate in-process; it never aborts on the unchanged tree
+        last = impl_lines[-1] if impl_lines else "(nothing)"
+        broken.append(f"the harness aborted while driving the implementation (trace incomplete); last completed op: {last}")
     searched = 0
     if broken and not violations:
         found = None
@@ -394,6 +398,10 @@ def main():
                 ci = mism[0][0]
                 if 0 <= ci < len(cases):
                     body += ["first differing case:"] + cases[ci]
+            if not gen_ok:
+                cases = split_cases(impl_lines)
+                if cases:
+                    body += ["case during which the harness aborted:"] + cases[-1]
             rp = write_replay(pid, 1, body, hdr)
             violations.append((rp, " no-failing-input-found"))
 
